@@ -377,6 +377,7 @@ def run(ctx):
                  ('R-NONEGUARD', 'an optional parameter that is used as a number is tested with `is None`, never by truthiness (0 is a value)'),
                  ('R-SWAP', 'no two-statement swap through the container itself (x[i] = x[j]; x[j] = x[i])'),
                  ('R-FALSYDEFAULT', 'an attribute / keyword looked up with getattr or .get is not defaulted with `or`: a value that is present but falsy (empty units, 0, 0.0) is not absent'),
+                 ('R-ATTRALIAS', 'a local bound to an array attribute of the receiver (x = self.A) is not updated with an in-place operator: that changes the receiver'),
                  ('R-STALEVAR', 'no loop body reads the loop variable of an earlier, finished loop (bound nowhere else): it would hold that loop\'s last value for every iteration'),
                  ('R-GUARDOBJ', 'a `K not in A.dimensions / A.variables` guard adds K to A itself, not to another file'),
                  ('R-SIBLING', 'neighbouring statements that differ by one role swap (x/y, COL/ROW, tau0/tau1, llod/ulod, B/E) are adapted in every leaf')):
@@ -432,6 +433,9 @@ def run(ctx):
                     from . import api
                     ctx.violation(Finding('R-FALSYDEFAULT', rp, q, api.stmt_of(n_), '`%s`: a value that is present but falsy (an empty string, 0) is replaced by the default as if it were absent' % norm(n_)[:70]),
                                   oid='generic:%s:falsy:%s' % (q, norm(n_)[:40]))
+            for st_, nm_, at_ in lints.attr_alias_inplace(fn):
+                ctx.violation(Finding('R-ATTRALIAS', rp, q, st_, '%s is the object %s refers to (bound without a copy) and is updated in place here: the attribute of the receiver changes with it, '
+                                      'so a second call starts from the already converted values' % (nm_, at_)), oid='generic:%s:attralias:%s' % (q, nm_))
             for nm_, lp_, rd_ in lints.stale_loop_variables(fn):
                 from . import api
                 ctx.violation(Finding('R-STALEVAR', rp, q, api.stmt_of(rd_), '%s is the loop variable of `for %s in %s` above and is bound nowhere else; this later loop reads it in its body, where it keeps the last value '
@@ -447,7 +451,7 @@ def run(ctx):
                 ctx.violation(Finding('R-ONESHOT', rp, q, api.stmt_of(use), '%s is a one-shot iterator (%s) and is consumed again here: the second pass sees nothing' % (g, norm(st.value)[:40])),
                               oid='generic:%s:%s' % (q, g))
     ok_note = '%d functions, %d parameters in %d anchored files' % (nfun, npar, len(files))
-    for r in ('R-PARAMUSED', 'R-NOSTATE', 'R-ELEMENTWISE', 'R-CALLED', 'R-ONESHOT', 'R-MODSTATE', 'R-SIBLING', 'R-CLASSSTATE', 'R-NONEGUARD', 'R-SWAP', 'R-STALEVAR', 'R-GUARDOBJ', 'R-FALSYDEFAULT'):
+    for r in ('R-PARAMUSED', 'R-NOSTATE', 'R-ELEMENTWISE', 'R-CALLED', 'R-ONESHOT', 'R-MODSTATE', 'R-SIBLING', 'R-CLASSSTATE', 'R-NONEGUARD', 'R-SWAP', 'R-STALEVAR', 'R-GUARDOBJ', 'R-FALSYDEFAULT', 'R-ATTRALIAS'):
         if not any(o['rule'] == r and o['status'] == 'violated' and str(o.get('id', '')).startswith('generic:') for o in ctx.obligations):
             ctx.ok(r, 'generic:%s' % r, 'anchored files of %s' % ctx.prop, ok_note)
     ctx.count('functions under the generic rules', nfun)
